@@ -1347,9 +1347,13 @@ class FileV:
         self.path = path
 
     def write_all(self, ex, data):
+        if FS[0] is not None:
+            FS[0].ops.append(("write", list(_path_bytes(ex, self.path)), list(data)))
         return ok()
 
     def write(self, ex, data):
+        if FS[0] is not None:
+            FS[0].ops.append(("write", list(_path_bytes(ex, self.path)), list(data)))
         return ok(usize(len(data)))
 
 
@@ -1373,6 +1377,10 @@ def _fs_unit(op, follows_final):
     def g(ex, args, f):
         fs = _fs()
         good, stack = _fs_call(ex, op, args[0], follows_final)
+        if op == "set_permissions" and len(args) > 1:
+            pm = deref_all(ex, args[1])
+            fs.ops[-1] = (fs.ops[-1][0], fs.ops[-1][1], getattr(pm, "payload", None))
+        fs.ops[-1] = fs.ops[-1] + (good,)
         if not good:
             return err(Opaque("io::Error(fs)"))
         if op == "remove_file":
